@@ -120,7 +120,28 @@ func RunMerkle(w *tr.Writer, st *MStats, tid int, n int, indices []int, r *rand.
 			st.Paths++
 		}
 		ev["rows"] = rows
-		ev["settree"] = rtOK
+		// export, then go on using the source object for another tree of the same size, then load the export: the export
+		// is a value of its own (root and paths of the tree it was taken from), and two objects never share state
+		exp := mt.GetTree()
+		other := make([]util.Hashable, n)
+		for i := range other {
+			other[i] = mleaf(util.Hash(fmt.Sprintf("other-%d-of-%d", i, n)))
+		}
+		mt.ComputeTree(other)
+		var mt3 util.MerkleTree
+		reuseOK := mt3.SetTree(n, exp) == nil && mt3.GetRoot() == root
+		if reuseOK && len(indices) > 0 {
+			idx := indices[len(indices)-1]
+			reuseOK = util.VerifyMerklePath(leaves[idx].GetHash(), mt3.GetPathByIndex(idx), root)
+		}
+		// a tree loaded from another tree's export is recomputed: the tree it was loaded from is not affected
+		var first, second util.MerkleTree
+		first.ComputeTree(leaves)
+		if second.SetTree(n, first.GetTree()) == nil {
+			second.ComputeTree(other)
+			reuseOK = reuseOK && first.GetRoot() == root
+		}
+		ev["settree"] = rtOK && reuseOK
 		return "ok"
 	})
 	ev["res"] = res
